@@ -178,9 +178,13 @@ func runC16(r *core.Run) {
 			listsOver([]int{math.MinInt, -1, 0, 1, math.MaxInt}, 2, func(s, e []int) bool { return emit(c16List{slices.Clone(s), slices.Clone(e)}) })
 		}, checkList)
 
-	core.Clause(r, "large-lists", core.Opts{Rule: "deterministic families of n intervals for n in {11,12,13,14,50,200,1000}: nested, staggered, duplicated, touching, reversed input order, with empty/inverted ones mixed in; every breakpoint and its neighbours queried; non-trivial = all"},
+	core.Clause(r, "large-lists", core.Opts{Rule: "deterministic families of n intervals for EVERY n in 0..130 and {200,255,256,257,1000}: nested, staggered, duplicated, touching, reversed input order, with empty/inverted ones mixed in; every breakpoint and its neighbours queried; non-trivial = all"},
 		func(emit func(c16List) bool) {
-			for _, n := range []int{11, 12, 13, 14, 50, 200, 1000} {
+			var ns []int
+			for n := 0; n <= 130; n++ {
+				ns = append(ns, n)
+			}
+			for _, n := range append(ns, 200, 255, 256, 257, 1000) {
 				for fam := 0; fam < 6; fam++ {
 					st, en := make([]int, n), make([]int, n)
 					for i := 0; i < n; i++ {
